@@ -182,6 +182,13 @@ func (d *designator) eval(n *xp10.Node, base []mock.Elem) (xp10.Value, error) {
 			if v, ok := tree.NumNames[node[len(node)-1].Name]; ok {
 				return xp10.Num(v), nil
 			}
+			if vs, ok := tree.ListNames[node[len(node)-1].Name]; ok {
+				var members []xp10.Value
+				for _, v := range vs {
+					members = append(members, xp10.Str(v))
+				}
+				return xp10.NodeSet(members...), nil
+			}
 		}
 		return xp10.Str(id), nil
 	}
@@ -260,8 +267,9 @@ func pathShape(src string) string {
 
 var tree = func() *mock.Tree {
 	t := mock.NewTree()
-	t.EmptyNames = map[string]bool{"e": true} // a leaf named e has the empty string as value
-	t.NumNames = map[string]float64{"n": 7}   // a leaf named n has the NUMBER 7 as value (typed data tree)
+	t.EmptyNames = map[string]bool{"e": true}           // a leaf named e has the empty string as value
+	t.NumNames = map[string]float64{"n": 7}             // a leaf named n has the NUMBER 7 as value (typed data tree)
+	t.ListNames = map[string][]string{"ll": {"v", "w"}} // a leaf-list named ll
 	return t
 }()
 
@@ -489,6 +497,14 @@ func run(c *engine.Ctx) {
 			exec(p + " = " + q)
 			exec("/" + p + " != " + q)
 		}
+		// a comparison with a leaf-list elsewhere in the expression (before and behind the path): what it
+		// leaves behind in the run must not change how the path's predicates are evaluated
+		if c.Expired() {
+			return
+		}
+		exec("../ll = 'v' and " + p + " = 'v'")
+		exec(p + " = 'v' or ../ll = 'w'")
+		exec("not(../ll = 'zz') and /" + p)
 	}
 	c.Sample(map[string]any{"expr": "/a/b[k = current()/../x]/c = 'v'", "context": "/top/ctx", "expected_requests": "Navigate(root=0)->/top/x GetValue@/top/x Navigate(root=1)->/a/b[k=/top/x]/c GetValue@..."})
 }
